@@ -36,7 +36,7 @@ func main() {
 	var jobs []sched.Job
 	specs := map[string]func() *txnh.TxnScenario{}
 	for _, bk := range common.BackendsTier(run.Thorough()) {
-		for _, m := range bk.Modes {
+		for _, m := range common.ModesWithDeclined(bk) {
 			for _, sh := range common.Shapes(run.Thorough()) {
 				if sh.Pess != m.Pessimistic || (sh.LockOnlyPrimary && bk.Name == "unistore") {
 					continue
